@@ -107,6 +107,31 @@ CLAIMED = {
         'generated well-formed and malformed files through the public API (error variant names compared); Spec/Container.v transcribes the container specification; libwebp WebPGetFeatures/WebPDemux as adequacy check.',
    technique='Coq proof (parse . serialize = id by induction over the chunk list) + correspondence check on generated containers',
    ref='DESIGN.md section 6 C08'),
+ 'C14': dict(
+   text='Coq theorem huffman_ok (full, no remaining hypothesis): for every histogram with >= 2 used symbols, total < 2^32, alphabet <= 2^L, 1 <= L <= 15 and EVERY tie-break of the unstable sort '
+        '(any permutation that sorts), the model of build_huffman_tree returns Ok (no overflow, no index panic, no underflow in the length-limiting loop, final assert holds) with: used symbols '
+        '1..L, unused 0, Kraft equality, codes = bit-reversed canonical codes; huffman_few for < 2 used symbols; depth fits u8 for any alphabet (Fibonacci weight bound); '
+        'a certified checker c14_ok (proved equivalent to the property) decides the property on the implementation\'s actual output on every case.',
+   note='Trusted: Coq kernel; hand model Model/Encoder.v + exact models of std BinaryHeap and of Rust 1.95 sort_unstable_by_key (EncoderHeap/EncoderSort, validated by `sortchk` cases), '
+        'tied by correspondence through hook verif::build_huffman_tree (exhaustive small alphabets, adversarial families on 16/256/280 symbols).',
+   technique='Coq proof (heap/tree/Kraft/length-limiting invariants, all tie-breaks quantified) + certified checker on implementation output + correspondence check',
+   ref='DESIGN.md section 6 C14'),
+ 'C09': dict(
+   text='Coq theorem encode_wellformed / encode_layout: whenever the frame encodes, WebPEncoder::encode writes exactly Spec.WebPFile.lossless_file: RIFF size = length - 8, even-padded chunks '
+        'in the order VP8X, ICCP, VP8L, EXIF, XMP, VP8X flags and canvas size from the image and the metadata present (empty payload = absent); simple layout without metadata. '
+        'Read-back of metadata by this crate\'s decoder, by libwebp\'s demuxer, determinism, failing / splitting sinks are decided on every case by the harness.',
+   note='Trusted: Coq kernel; hand model Model/Encoder.v tied by byte-exact correspondence of the output on generated images (4 colour types x both params x 8 metadata subsets x payload lengths); '
+        'Spec/WebPFile.v transcribes the container specification; the VP8L payload is opaque here (C04).',
+   technique='Coq proof (container layout of the encoder model) + byte-exact correspondence + independent strict RIFF parser / libwebp demux in the harness',
+   ref='DESIGN.md section 6 C09'),
+ 'C04': dict(
+   text='PARTIAL proof. Proved: dimensions 0 or > 16384 give InvalidDimensions with nothing written; BitWriter output = LSB-first packing of the (bits,n) fields; run lengths 1..4096 are emitted as tokens '
+        'the specification\'s prefix decoding reads back (no kernel overflow); subtract-green inverse; prefix codes complete and canonical (C14). The full round-trip theorem (composition with the decoder-side '
+        'Spec.VP8L) is NOT proved: the round trip is decided on every generated image by both decoders (this crate and libwebp) returning exactly the input pixels, and output bytes = Model bytes.',
+   note='Trusted: Coq kernel; hand model Model/Encoder.v tied by byte-exact correspondence; generators drive every statistics-dependent branch (constant, two-colour, runs >= 4096/4097, '
+        'Fibonacci tails forcing the 15-bit limit, single symbols, 1xN / Nx1 / 16384-wide).',
+   technique='Coq proof of encoder layers + byte-exact correspondence + round-trip decision through two decoders',
+   ref='DESIGN.md section 6 C04'),
 }
 PENDING = {}
 
